@@ -1,4 +1,9 @@
-import Synphot.Core.Basic
-import Synphot.Core.Binning
-import Synphot.Core.PixRange
+-- root of the library: everything `./setup.sh` (lake build) has to compile
 import Synphot.Driver.Main
+import Synphot.Lemmas.Binning
+import Synphot.Lemmas.Trapz
+import Synphot.Lemmas.Wave
+import Synphot.Lemmas.Merge
+import Synphot.Lemmas.Units
+import Synphot.Props.C01
+import Synphot.Props.C18
